@@ -3,7 +3,7 @@ run through the real lexer / parser (vh front) and compared with the specified t
 import json, random, subprocess
 import vlib
 
-CONCRETE = {"d": "0123456789", "l": "abcxyzfq", "s": "+*/=<>!-&|#%~", "b": "(){}[],:", "q": '"', "k": "\\", "w": " \t", "n": "\n", "c": ";", "p": ".",
+CONCRETE = {"d": "0123456789", "l": "abcnxyzfqn", "s": "+*/=<>!-&|#%~", "b": "(){}[],:", "q": '"', "k": "\\", "w": " \t", "n": "\n", "c": ";", "p": ".",
             "x": ["$", "@", "'", "_", "A", "Z", "?", "^", "`", "£", "€", "\r", "\x7f", "\x01", "\x00"]}
 KIND = {"Int": "IntLit", "Float": "FloatLit", "Name": "Name", "Str": "StringLit", "NS": "NotSticky", "Sticky": "Sticky", "EOL": "EOL", "EOF": "EOF"}
 
@@ -75,7 +75,6 @@ def lexer_cases(obs, seed, variants=1):
     for o in obs:
         for v in range(variants):
             chars = concretize(o["inp"], rnd)
-            # avoid the documented-by-test \n escape: a letter right after a backslash is never 'n' (CONCRETE has no n)
             off = [0]
             for ch in chars:
                 off.append(off[-1] + len(ch.encode("utf-8")))
